@@ -577,7 +577,6 @@ void cmb_resourcepool_release(struct cmb_resourcepool *rpp, const uint64_t rel_a
 {
     cmb_assert_release(rpp != NULL);
     cmb_assert_release(rel_amount > 0u);
-    cmb_assert_release(rpp->in_use >= rel_amount);
     cmb_assert_release(rel_amount <= rpp->capacity);
 
     const struct cmi_holdable *hrp = (struct cmi_holdable *)rpp;
@@ -589,6 +588,17 @@ void cmb_resourcepool_release(struct cmb_resourcepool *rpp, const uint64_t rel_a
     const uint64_t key = (uint64_t)pp;
 
     const struct cmi_hashheap *hhp = &(rpp->holders);
+    if (!cmi_hashheap_is_enqueued(hhp, key)) {
+        /*
+         * Lost everything to a preemptor, and the notice was overtaken by some
+         * other signal in the same instant. Nothing to give back, the units
+         * belong to their new holders.
+         */
+        cmb_logger_info(stdout, "Released %s, already preempted", hrp->base.name);
+        return;
+    }
+
+    cmb_assert_release(rpp->in_use >= rel_amount);
     struct pool_item *pi = (struct pool_item *)cmi_hashheap_item(hhp, key);
     cmb_assert_debug(pi->holder == pp);
     cmb_logger_info(stdout,
